@@ -342,17 +342,10 @@ func c03Truth(hi *history, gitLog string) []c03Expect {
 	return out
 }
 
-const c03KnownOnto = "C03-rename-onto-deleted-path"
-
 func c03CheckE2E(c *c03E2E, rep *runReport) {
 	id := fmt.Sprintf("e2e-%d", c.ID)
-	// known-finding class predicate: the failing rule lives in a file whose lineage contains a rename onto a path that was
-	// deleted earlier on the branch (getChangeByPath then returns the stale deletion record of that path)
+	// no known-finding class is left: every deviation from the history's truth is a violation
 	failAt := func(path, what string) {
-		if c.History.Tainted[path] {
-			rep.failKnown(id, what, c, c03KnownOnto)
-			return
-		}
 		rep.fail(id, what, c)
 	}
 	if c.Result.Exit != 0 && c.Result.Exit != 1 || !c.Result.JSONOK {
@@ -474,7 +467,7 @@ func runC03(args []string) int {
 	rep.hist(fmt.Sprintf("L3:corpus-histories=%d", len(cases)))
 	ncorpus := len(cases)
 	for i := 0; i < nh; i++ {
-		hg := &hgen{g: g, opts: hOpts{NoBroken: r.Intn(4) > 0, MaxFiles: 3, MaxRules: 4, MaxCommits: 4, OddPaths: true, OntoDeleted: i%4 == 0}}
+		hg := &hgen{g: g, opts: hOpts{NoBroken: r.Intn(4) > 0, MaxFiles: 3, MaxRules: 4, MaxCommits: 4, OddPaths: true, OntoDeleted: i%5 == 0}}
 		cases = append(cases, &c03E2E{ID: 100000 + ncorpus + i, History: hg.generate()})
 	}
 	parallel(len(cases), 16, func(i int) { c03BuildE2E(cases[i], base) })
@@ -485,7 +478,7 @@ func runC03(args []string) int {
 			break
 		}
 		res := runInproc(filepath.Join(base, fmt.Sprintf("r%05d", c.ID)))
-		// the named hypothesis log_faithful and the guard fresh_dst, tested on git's real output
+		// the named hypothesis log_faithful, tested on git's real output (+ stratum: a rename landed on a path that has a record)
 		viol, fresh := checkLogFaithful(filepath.Join(base, fmt.Sprintf("r%05d", c.ID)), c.GitLog)
 		if len(viol) > 0 {
 			rep.hist("hyp:log_faithful-violated")
@@ -494,9 +487,9 @@ func runC03(args []string) int {
 			rep.hist("hyp:log_faithful-holds")
 		}
 		if fresh {
-			rep.hist("hyp:fresh_dst-holds")
+			rep.hist("L2:no-rename-onto-a-path-with-a-record")
 		} else {
-			rep.hist("hyp:fresh_dst-fails(rename onto a live path)")
+			rep.hist("L2:rename-onto-a-path-with-a-record(shadowed deletion)")
 		}
 		if term, ok := changesCaseCoq(res); ok {
 			cw.add(fmt.Sprintf("ChangesCase %s %s", coqN(200000+i), term))
